@@ -85,6 +85,12 @@ class _BaseTransport:
         self._mark_closed("force:" + (type(exc).__name__ if exc else "None"))
         self._loop.call_soon(self._call_connection_lost, exc)
 
+    def _fatal_error(self, exc, message):
+        if not isinstance(exc, OSError):
+            self._loop.call_exception_handler({"message": message, "exception": exc, "transport": self,
+                                               "protocol": self._protocol})
+        self._force_close(exc)
+
     def _call_connection_lost(self, exc):
         self.lost_called = True
         self._protocol.connection_lost(exc)
@@ -174,9 +180,20 @@ class SimTcpTransport(_BaseTransport, asyncio.Transport):
         rec["t_run"] = self._net.world.clock.now
         self._net.world.log("deliver", self.tid, kind, payload.hex() if isinstance(payload, bytes) else payload)
         if kind == "data":
-            self._protocol.data_received(payload)
+            try:
+                self._protocol.data_received(payload)
+            except (SystemExit, KeyboardInterrupt):
+                raise
+            except BaseException as exc:  # selector_events: _fatal_error -> exception handler + force close
+                self._fatal_error(exc, "Fatal error: protocol.data_received() call failed.")
         elif kind == "fin":
-            keep_open = self._protocol.eof_received()
+            try:
+                keep_open = self._protocol.eof_received()
+            except (SystemExit, KeyboardInterrupt):
+                raise
+            except BaseException as exc:
+                self._fatal_error(exc, "Fatal error: protocol.eof_received() call failed.")
+                return
             if not keep_open:
                 self.close()
         elif kind == "rst":
@@ -452,6 +469,8 @@ class SimNet:
                 x = prev[w["prev_rem"]["s"]:] if prev else b""
             elif "raw" in w:
                 x = bytes.fromhex(w["raw"])
+            elif "whole" in w:
+                x = ans
             else:
                 raise HarnessError(f"frag_then what={w}")
             if x:
@@ -459,17 +478,49 @@ class SimNet:
         elif k == "dup":
             dl.append((fault.get("d1", d), ans))
             dl.append((fault.get("d2", d), ans))
+        elif k == "multi":
+            # several deliveries in answer to ONE transmission
+            for part in fault["parts"]:
+                dl.append((part.get("d", d), self._part_bytes(part, ans, dev, data, tr)))
         else:
             raise HarnessError(f"unknown fault kind {k}")
+        if fault.get("again") is not None and dl:
+            dl.append((fault["again"], dl[-1][1]))
+            self.count("fault:again")
         for delay, payload in dl:
             if payload:
                 self.schedule_delivery(tr, delay, "data", payload, i)
         self._then(tr, fault, i)
         return None
 
+    def _part_bytes(self, part, ans, dev, data, tr):
+        w = part["what"]
+        if w == "ans":
+            return ans
+        if w == "garbage":
+            rnd = random.Random(part.get("seed", 0))
+            return bytes(rnd.getrandbits(8) for _ in range(part["n"]))
+        if w == "exc":
+            return dev.exception_frame(data, tr.kind, part["code"]) or b""
+        if w == "prefix":
+            return ans[:part["s"]]
+        if w == "suffix":
+            return ans[part["s"]:]
+        if w == "raw":
+            return bytes.fromhex(part["hex"])
+        raise HarnessError(f"multi part {w}")
+
     def _then(self, tr, fault, i):
         for ev in fault.get("then", ()):
             kind = ev["ev"]
+            if kind == "data":
+                # a stray datagram/segment later on (e.g. while the socket is idle)
+                ans = self.answers[i] or b""
+                payload = self._part_bytes(ev, ans, self.devices.get(tuple(tr.remote)), self.transmissions[i]["data"], tr)
+                if payload:
+                    self.count("fault:stray_data")
+                    self.schedule_delivery(tr, ev["d"], "data", payload, i)
+                continue
             if kind in ("fin", "rst"):
                 if tr.kind != "tcp":
                     continue
